@@ -10,7 +10,7 @@ while [ $i -lt $N ]; do
   rm -rf $base$i; mkdir -p $base$i
   rsync -a --exclude .git --exclude counterexamples ./ $base$i/verif/
   git -C /repo worktree add --detach $base$i/repo HEAD >/dev/null 2>&1
-  ( cd $base$i/verif && SEED_REPO=$base$i/repo tools/seed_all.sh --lane $i/$N > $base$i/out.log 2>&1 ) &
+  ( cd $base$i/verif && SEED_REPO=$base$i/repo tools/seed_all.sh $SEED_ALL_ARGS --lane $i/$N > $base$i/out.log 2>&1 ) &
   i=$((i+1))
 done
 wait
